@@ -365,29 +365,33 @@ def address_cache(ctx):
     (prefix, encoding, script type, the public key bytes used, network); otherwise a fresh Address is built from them."""
     q = 'keys:Key.address'
     fn = ctx.repo.func(q)
-    reuse = None
-    for n in walk_no_nested(fn):
-        if isinstance(n, ast.If) and any(isinstance(s, ast.Assign) and unparse(s.targets[0]) == 'self._address_obj' for s in n.body):
-            reuse = n
-    if reuse is None:
-        ctx.undecided('Key.address: construction of the cached Address not found')
-    test = unparse(reuse.test)
-    ctx.saw('Address is rebuilt when: %s' % test[:260])
-    call = [c for s in reuse.body for c in ast.walk(s) if isinstance(c, ast.Call) and unparse(c.func) == 'Address'][0]
-    inputs = {}
-    for i, a in enumerate(call.args):
-        inputs[['data', 'hashed_data', 'prefix', 'script_type'][i]] = unparse(a)
-    for k in call.keywords:
-        inputs[k.arg] = unparse(k.value)
-    always = isinstance(reuse.test, ast.Constant) and reuse.test.value is True
-    need = {'prefix': 'prefix', 'encoding': 'encoding', 'script_type': 'script_type', 'data': 'data_bytes', 'network': 'network'}
-    for inp, attr in need.items():
-        if inp not in inputs:
+    built = []
+
+    def h_address(interp, args, kwargs, st, node):
+        inputs = dict(kwargs)
+        if args:
+            inputs['data'] = args[0]
+        built.append((list(st.pc), {k: term(v) for k, v in inputs.items()}, node))
+        return NotImplemented
+    it = Interp(ctx.repo, 'keys', hooks={'Address': h_address}, self_cls='keys:Key')
+    it.run_function(fn, {'compressed': S(('var', 'compressed')), 'prefix': S(('var', 'prefix')), 'script_type': S(('var', 'script_type')), 'encoding': S(('var', 'encoding'))})
+    if not built:
+        ctx.undecided('Key.address: construction of the Address object not reached')
+    cached = ('attr', SELF, '_address_obj')
+    attr_of = {'prefix': 'prefix', 'encoding': 'encoding', 'script_type': 'script_type', 'data': 'data_bytes', 'network': 'network'}
+    for pc, inputs, node in built:
+        if not pc:
+            ctx.saw('Address is rebuilt unconditionally (no cache reuse)')
             continue
-        compared = ('self._address_obj.%s' % attr) in test
-        if not compared and not always:
-            ctx.violate(q, 'the cached Address is reused without comparing %s (built from `%s`)' % (inp, inputs[inp]), reuse,
-                        'a later request with another %s returns the address of the earlier request' % inp)
+        reuse_pc = pc[:-1] + [(pc[-1][0], not pc[-1][1])]
+        ctx.saw('Address(%s) is rebuilt when %s%s' % (', '.join(sorted(inputs)), '' if pc[-1][1] else 'not ', show(pc[-1][0])[:160]))
+        for inp, attr in attr_of.items():
+            if inp not in inputs:
+                continue
+            eq = ('cmp', '==', ('attr', cached, attr), inputs[inp])
+            if intv.satisfiable(reuse_pc, [(eq, False)]):
+                ctx.violate(q, 'the cached Address can be reused although its %s differs from the requested one (%s)' % (attr, show(inputs[inp])[:60]), node,
+                            'a later request with another %s returns the address of the earlier request' % inp)
 
 
 PUBLISHED = {
